@@ -194,6 +194,78 @@ func c13Jobs(quick bool) []c13Job {
   "b_first":{"custom_func":{"name":"javascript","args":[{"const":"p[0]"},{"const":"p"},{"array":[{"xpath":"v","type":"int"}]}]}},
   "c_values":{"array":[{"xpath":"v","type":"int"}]}}}}}`,
 			Input: `<feed><item><v>1</v><v>3</v><v>2</v></item><item><v>5</v><v>4</v></item></feed>`})
+	// nested parts of an argument changed in place (an array of objects, a plain value followed by
+	// containers, an object inside an object): again with the same argument declaration used elsewhere
+	jobs = append(jobs,
+		c13Job{Name: "js-script-changing-nested-parts-of-its-argument", Schema: `{` + h("xml") + `,"transform_declarations":{"FINAL_OUTPUT":{"xpath":"/feed/item","object":{
+  "a_bump":{"custom_func":{"name":"javascript","args":[{"const":"l[0].q = l[0].q * 10; l[0].q"},{"const":"l"},{"array":[{"xpath":"v","object":{"q":{"xpath":".","type":"int"}}}]}]}},
+  "b_read":{"custom_func":{"name":"javascript","args":[{"const":"l[0].q"},{"const":"l"},{"array":[{"xpath":"v","object":{"q":{"xpath":".","type":"int"}}}]}]}},
+  "c_plain":{"array":[{"xpath":"v","object":{"q":{"xpath":".","type":"int"}}}]},
+  "d_bump":{"custom_func":{"name":"javascript","args":[{"const":"p[1].q = 'changed'; p[2].l[0] = 'changed'; p[1].q"},{"const":"p"},{"array":[{"xpath":"v[1]"},{"object":{"q":{"xpath":"v[1]"}}},{"object":{"l":{"array":[{"xpath":"v"}]}}}]}]}},
+  "e_read":{"custom_func":{"name":"javascript","args":[{"const":"p[0] + '/' + p[1].q + '/' + p[2].l[0]"},{"const":"p"},{"array":[{"xpath":"v[1]"},{"object":{"q":{"xpath":"v[1]"}}},{"object":{"l":{"array":[{"xpath":"v"}]}}}]}]}},
+  "f_bump":{"custom_func":{"name":"javascript","args":[{"const":"o.inner.q = 'changed'; o.inner.q"},{"const":"o"},{"template":"OBJ"}]}},
+  "g_read":{"custom_func":{"name":"javascript","args":[{"const":"o.inner.q"},{"const":"o"},{"template":"OBJ"}]}},
+  "h_plain":{"template":"OBJ"}}},"OBJ":{"object":{"inner":{"object":{"q":{"xpath":"v[1]"}}}}}}}`,
+			Input: `<feed><item><v>1</v><v>3</v><v>2</v></item><item><v>5</v><v>4</v></item></feed>`})
+	// twin declarations: the same value declared several times on one node, the declarations differing
+	// in one attribute only (keep_empty_or_null, no_trim, type) - each has its own result, whichever is
+	// evaluated first (children are evaluated in name order: the second job has the names reversed)
+	{
+		type twinSet struct {
+			name   string
+			extras []string
+			input  string
+		}
+		for _, ts := range []twinSet{
+			{"", []string{``, `,"keep_empty_or_null":true`, `,"no_trim":true`, `,"keep_empty_or_null":true,"no_trim":true`, `,"type":"string"`, `,"type":"string","keep_empty_or_null":true`},
+				`<r><i><e></e></i><i><e> </e></i><i><e> x </e></i><i><e>7</e></i><i><e> 7 </e></i><i><e>true</e></i><i><g>no e</g></i></r>`},
+			{"/numeric", []string{``, `,"keep_empty_or_null":true`, `,"type":"int"`, `,"type":"int","keep_empty_or_null":true`, `,"type":"float"`, `,"type":"string"`, `,"type":"float","keep_empty_or_null":true`},
+				`<r><i><e>7</e></i><i><e> 7 </e></i><i><e>0</e></i><i><e>-12</e></i></r>`},
+		} {
+			twins := func(base string) []string {
+				var out []string
+				for _, extra := range ts.extras {
+					out = append(out, `{`+base+extra+`}`)
+				}
+				return out
+			}
+			var decls []string
+			decls = append(decls, twins(`"xpath":"e"`)...)
+			if ts.name == "" {
+				decls = append(decls, twins(`"const":" "`)...)
+			} else {
+				decls = append(decls, twins(`"const":" 5 "`)...)
+			}
+			decls = append(decls, twins(`"custom_func":{"name":"concat","args":[{"xpath":"e","no_trim":true}]}`)...)
+			for _, t := range []string{"T", "TK", "TN", "TS"} {
+				decls = append(decls, `{"xpath":"e","template":"`+t+`"}`)
+			}
+			for _, keep := range []string{``, `,"keep_empty_or_null":true`} {
+				for _, keepIn := range []string{``, `,"keep_empty_or_null":true`} {
+					decls = append(decls, `{"object":{"x":{"xpath":"e"`+keepIn+`}}`+keep+`}`)
+					decls = append(decls, `{"array":[{"xpath":"e"`+keepIn+`}]`+keep+`}`)
+					decls = append(decls, `{"xpath":"e","object":{"x":{"xpath":"."`+keepIn+`}}`+keep+`}`)
+				}
+			}
+			for _, reversed := range []bool{false, true} {
+				var fields []string
+				for i, d := range decls {
+					k := i
+					if reversed {
+						k = len(decls) - 1 - i
+					}
+					fields = append(fields, fmt.Sprintf(`"f%03d":%s`, k, d))
+				}
+				name := "twin-declarations-differing-in-one-attribute" + ts.name
+				if reversed {
+					name += "/evaluated-in-reverse-order"
+				}
+				jobs = append(jobs, c13Job{Name: name, Schema: `{` + h("xml") + `,"transform_declarations":{"FINAL_OUTPUT":{"xpath":"/r/i","object":{` + strings.Join(fields, ",") +
+					`}},"T":{"custom_func":{"name":"concat","args":[{"xpath":".","no_trim":true}]}},"TK":{"custom_func":{"name":"concat","args":[{"xpath":".","no_trim":true}]},"keep_empty_or_null":true},"TN":{"custom_func":{"name":"concat","args":[{"xpath":".","no_trim":true}]},"no_trim":true},"TS":{"custom_func":{"name":"concat","args":[{"xpath":".","no_trim":true}]},"type":"string"}}}`,
+					Input: ts.input})
+			}
+		}
+	}
 	// cross-format histories in one process state: what an earlier job of another format leaves in
 	// the node pool must not matter for the next job
 	byName := map[string]c13Job{}
@@ -297,6 +369,14 @@ func init() {
 				if len(base) > 0 && strings.HasPrefix(base[0], "SCHEMA ERROR") {
 					c.HarnessError("job " + j.Name + ": " + base[0] + "\n" + j.Schema)
 					continue
+				}
+				if strings.HasPrefix(j.Name, "twin-declarations") {
+					for _, l := range base {
+						if !strings.HasPrefix(l, "rec ") && !strings.HasPrefix(l, "eof") {
+							c.HarnessError("job " + j.Name + " is meant to have no failing record: " + trunc2(l, 300))
+							break
+						}
+					}
 				}
 				// determinism of the harness itself: the default configuration twice
 				if d := c15Diff(c13Run(c13Cfg{}, j), base); d != "" {
